@@ -36,33 +36,41 @@ Fixpoint remove_first (p : Z -> bool) (c : cache) : option cache :=
            end
   end.
 
+(* eviction as coded in get_cache_chunk: prefer the oldest chunk that is
+   neither chunk 0 nor the requested one; otherwise the oldest chunk that is
+   not the requested one *)
+Definition evict (idx : Z) (c : cache) : cache :=
+  match remove_first (fun k => negb (k =? 0) && negb (k =? idx)) c with
+  | Some c' => c'
+  | None => match remove_first (fun k => negb (k =? idx)) c with
+            | Some c' => c'
+            | None => c
+            end
+  end.
+
 Section HTTP.
   Variable res : list Z.
   Variable junk : Z -> Z -> list Z.
   Variable cs keep : Z.
+  (* the eviction policy is a parameter: the theorems hold for every policy
+     that meets [policy_ok] (Proofs/C19.v); the code's policy is [evict] *)
+  Variable ev : Z -> cache -> cache.
 
   Definition len : Z := Z.of_nat (length res).
 
   Definition download (a b : Z) : list Z :=
     if (0 <=? a) && (a <? b) && (b <=? len) then slice res a b else junk a b.
 
-  (* eviction: prefer the oldest chunk that is neither chunk 0 nor the
-     requested one; otherwise the oldest chunk that is not the requested one *)
-  Definition evict (idx : Z) (c : cache) : cache :=
-    match remove_first (fun k => negb (k =? 0) && negb (k =? idx)) c with
-    | Some c' => c'
-    | None => match remove_first (fun k => negb (k =? idx)) c with
-              | Some c' => c'
-              | None => c
-              end
+  (* self.cache[index] = self.download_range(start, stop) when missing *)
+  Definition insert_chunk (idx : Z) (c : cache) : cache :=
+    match lookup idx c with
+    | Some _ => c
+    | None => c ++ [(idx, download (idx * cs) (Z.min ((idx + 1) * cs) len))]
     end.
 
   Definition get_chunk (idx : Z) (c : cache) : cache * option (list Z) :=
-    let c1 := match lookup idx c with
-              | Some _ => c
-              | None => c ++ [(idx, download (idx * cs) (Z.min ((idx + 1) * cs) len))]
-              end in
-    let c2 := if keep <? Z.of_nat (length c1) then evict idx c1 else c1 in
+    let c1 := insert_chunk idx c in
+    let c2 := if keep <? Z.of_nat (length c1) then ev idx c1 else c1 in
     (c2, lookup idx c2).
 
   (* for chunk_index in range(chunk_start, chunk_stop): n iterations *)
@@ -145,6 +153,66 @@ Section HTTP.
     | o :: ops' =>
         Z.max (Z.of_nat (length (chunks s))) (run_maxheld (fst (step s o)) ops')
     end.
+
+  (* ---- the transient: between the insertion and the eviction inside
+     get_cache_chunk the dict holds one more chunk. [*_peak] is the largest
+     number of chunks the dict ever holds, including these moments. *)
+  Fixpoint rrc_loop_peak (n : nat) (k pos toread stop : Z) (c : cache) : Z :=
+    match n with
+    | O => Z.of_nat (length c)
+    | S n' =>
+        let here := Z.of_nat (length (insert_chunk k c)) in
+        match get_chunk k c with
+        | (c', None) => here
+        | (c', Some chunk) =>
+            let cst := pos mod cs in
+            if toread =? 0 then here
+            else if cs <=? cst + toread then
+              Z.max here (rrc_loop_peak n' (k + 1) (pos + (cs - cst))
+                                        (toread - (cs - cst)) stop c')
+            else
+              let ce := stop mod cs in
+              Z.max here (rrc_loop_peak n' (k + 1) (pos + (ce - cst))
+                                        (toread - (ce - cst)) stop c')
+        end
+    end.
+
+  Definition rrc_peak (start stop0 : Z) (c : cache) : Z :=
+    let stop := Z.min stop0 len in
+    let toread := stop - start in
+    if toread <=? 0 then Z.of_nat (length c)
+    else rrc_loop_peak (Z.to_nat (stop / cs + 1 - start / cs)) (start / cs)
+                       start toread stop c.
+
+  Definition step_peak (s : state) (o : op) : Z :=
+    match o with
+    | Read n =>
+        let size := if n <? 0 then Z.max (len - pos s) 0 else n in
+        rrc_peak (pos s) (pos s + size) (chunks s)
+    | _ => Z.of_nat (length (chunks s))
+    end.
+
+  Fixpoint run_peak (s : state) (ops : list op) : Z :=
+    match ops with
+    | [] => Z.of_nat (length (chunks s))
+    | o :: ops' => Z.max (step_peak s o) (run_peak (fst (step s o)) ops')
+    end.
+
+  (* ---- an adaptive client (h5py): the next operation is a function of the
+     answers received so far; [None] = finished. The transcript is everything
+     the client has seen. *)
+  Definition reader := list out -> option op.
+
+  Fixpoint interact (fuel : nat) (rd : reader) (s : state) (hist : list out)
+    : list out :=
+    match fuel with
+    | O => hist
+    | S f =>
+        match rd hist with
+        | None => hist
+        | Some o => let '(s', r) := step s o in interact f rd s' (hist ++ [r])
+        end
+    end.
 End HTTP.
 
 (* ---- specification: an ordinary in-memory file ------------------------- *)
@@ -177,16 +245,45 @@ Section Spec.
     | [] => true
     | o :: ops' => let p' := fst (spec_step p o) in (0 <=? p') && pos_ok p' ops'
     end.
+
+  Fixpoint spec_interact (fuel : nat) (rd : list out -> option op) (p : Z)
+           (hist : list out) : list out :=
+    match fuel with
+    | O => hist
+    | S f =>
+        match rd hist with
+        | None => hist
+        | Some o => let '(p', r) := spec_step p o in
+                    spec_interact f rd p' (hist ++ [r])
+        end
+    end.
+
+  (* the client never seeks to a negative position of the plain file *)
+  Fixpoint reader_pos_ok (fuel : nat) (rd : list out -> option op) (p : Z)
+           (hist : list out) : bool :=
+    match fuel with
+    | O => true
+    | S f =>
+        match rd hist with
+        | None => true
+        | Some o => let '(p', r) := spec_step p o in
+                    (0 <=? p') && reader_pos_ok f rd p' (hist ++ [r])
+        end
+    end.
 End Spec.
 
 (* ---- interface used by the correspondence check (harness/c19.py) -------- *)
 Definition mk_junk (mode : Z) (res : list Z) : Z -> Z -> list Z :=
-  fun _ _ => if mode =? 0 then [] else if mode =? 1 then res
-             else [255; 254; 253; 252; 251].
+  fun a b => if mode =? 0 then [] else if mode =? 1 then res
+             else if mode =? 2 then [255; 254; 253; 252; 251]
+             else (* RFC 7233: a range end beyond the length is clipped *)
+               if (0 <=? a) && (a <? Z.of_nat (length res)) && (a <? b)
+               then slice res a (Z.of_nat (length res)) else [].
 
 Definition decode_op (t : Z * Z * Z) : op :=
   let '(tag, a, b) := t in
-  if tag =? 0 then Seek a b else if tag =? 1 then Tell else Read a.
+  if tag =? 0 then Seek a b else if tag =? 1 then Tell
+  else if tag =? 2 then Read a else Read (-1).   (* 3: read(None), 4: read() *)
 
 Definition enc_out (o : out) : list Z :=
   match o with
@@ -197,13 +294,15 @@ Definition enc_out (o : out) : list Z :=
   end.
 
 (* case = (resource, junk mode, chunk size, keep_chunks, ops);
-   result = encoded outputs ++ [9; largest number of chunks held] *)
+   result = encoded outputs ++ [9; largest number of chunks held between
+   operations; largest number held at any moment] *)
 Definition run_flat (case : list Z * Z * Z * Z * list (Z * Z * Z)) : list Z :=
   let '(res, mode, cs, keep, tops) := case in
   let ops := map decode_op tops in
   let j := mk_junk mode res in
-  flat_map enc_out (snd (run res j cs keep init ops))
-  ++ [9; run_maxheld res j cs keep init ops].
+  flat_map enc_out (snd (run res j cs keep evict init ops))
+  ++ [9; run_maxheld res j cs keep evict init ops;
+      run_peak res j cs keep evict init ops].
 
 (* ---- the code before the repairs 96f1c8a / d7d4e3b, kept for the refutation
    witnesses in Props/C19.v (not used by the correspondence) ---------------- *)
@@ -220,34 +319,15 @@ Section HTTP_old.
     | None => c
     end.
 
-  Definition get_chunk_old (idx : Z) (c : cache) : cache * option (list Z) :=
-    let c1 := match lookup idx c with
-              | Some _ => c
-              | None => c ++ [(idx, download res junk (idx * cs)
-                                      (Z.min ((idx + 1) * cs) (len res)))]
-              end in
-    let c2 := if keep <? Z.of_nat (length c1) then evict_old c1 else c1 in
-    (c2, lookup idx c2).
+  (* the old get_cache_chunk and loop are the generic ones under the old
+     policy, which does not meet [policy_ok] (it may evict the requested
+     chunk) *)
+  Definition get_chunk_old : Z -> cache -> cache * option (list Z) :=
+    get_chunk res junk cs keep (fun _ c => evict_old c).
 
-  Fixpoint rrc_loop_old (n : nat) (k pos toread stop : Z) (c : cache)
-           (acc : list Z) : cache * option (list Z) :=
-    match n with
-    | O => (c, Some acc)
-    | S n' =>
-        match get_chunk_old k c with
-        | (c', None) => (c', None)
-        | (c', Some chunk) =>
-            let cst := pos mod cs in
-            if toread =? 0 then (c', Some acc)
-            else if cs <=? cst + toread then
-              rrc_loop_old n' (k + 1) (pos + (cs - cst)) (toread - (cs - cst))
-                           stop c' (acc ++ skipn (Z.to_nat cst) chunk)
-            else
-              let ce := stop mod cs in
-              rrc_loop_old n' (k + 1) (pos + (ce - cst)) (toread - (ce - cst))
-                           stop c' (acc ++ slice chunk cst ce)
-        end
-    end.
+  Definition rrc_loop_old : nat -> Z -> Z -> Z -> Z -> cache -> list Z
+                            -> cache * option (list Z) :=
+    rrc_loop res junk cs keep (fun _ c => evict_old c).
 
   (* old read_range_cached: no clipping to the length, no early return *)
   Definition rrc_old (start stop : Z) (c : cache) : cache * option (list Z) :=
@@ -266,7 +346,7 @@ Section HTTP_old.
              OData d)
         | (c', None) => ({| pos := pos s; chunks := c' |}, OKeyError)
         end
-    | _ => step res junk cs keep s o
+    | _ => step res junk cs keep evict s o
     end.
 
   Fixpoint run_old (s : state) (ops : list op) : list out :=
@@ -275,3 +355,37 @@ Section HTTP_old.
     | o :: ops' => let '(s', r) := step_old s o in r :: run_old s' ops'
     end.
 End HTTP_old.
+
+(* ---- interface for replaying the operations h5py issued on a real .rtdc
+   file (harness/c19.py: h5py traces). The resource is passed packed, 64 bytes
+   per number (little endian), and answers are reduced to a checksum so that
+   the printed result stays small. *)
+Fixpoint unpack (n : nat) (w : Z) : list Z :=
+  match n with
+  | O => []
+  | S n' => (w mod 256) :: unpack n' (w / 256)
+  end.
+
+Definition unpack_res (words : list Z) (total : Z) : list Z :=
+  firstn (Z.to_nat total) (flat_map (unpack 64) words).
+
+Definition checksum (d : list Z) : Z :=
+  fold_left (fun acc x => (acc * 31 + x + 1) mod 1000000007) d 7.
+
+Definition digest_out (o : out) : list Z :=
+  match o with
+  | ONone => [0]
+  | OPos p => [1; p]
+  | OData d => [2; Z.of_nat (length d); checksum d]
+  | OKeyError => [3]
+  end.
+
+(* case = (packed resource, length, chunk size, keep_chunks, ops) *)
+Definition run_digest (case : list Z * Z * Z * Z * list (Z * Z * Z)) : list Z :=
+  let '(words, total, cs, keep, tops) := case in
+  let res := unpack_res words total in
+  let ops := map decode_op tops in
+  let j := mk_junk 3 res in
+  flat_map digest_out (snd (run res j cs keep evict init ops))
+  ++ [9; run_maxheld res j cs keep evict init ops;
+      run_peak res j cs keep evict init ops].
